@@ -235,12 +235,30 @@ def _install_abort(model, k):
         if count[0] == k:
             raise SimAbort()
     seen = set()
-    for _, _, layer in model._leaf_modules:
+    for layer in leaf_layers(model):
         if id(layer) in seen:
             continue
         seen.add(id(layer))
         handles.append(layer.register_forward_pre_hook(hook))
     return handles, count
+
+
+def leaf_layers(model):
+    """the modules called by the traced graph of the inner model, in graph order (torch.fx API only; no private
+    plinio attribute); falls back to all child-less modules"""
+    seed = getattr(model, 'seed', None)
+    graph = getattr(seed, 'graph', None)
+    out = []
+    if graph is not None:
+        for n in graph.nodes:
+            if n.op == 'call_module':
+                try:
+                    out.append(seed.get_submodule(str(n.target)))
+                except AttributeError:
+                    pass
+    if not out:
+        out = [m for m in model.modules() if not list(m.children())]
+    return out
 
 
 def run_forward(rep, x, abort_at=None):
